@@ -16,6 +16,39 @@ class Unknown(Exception):
     pass
 
 
+def _ints(a, b):
+    return all(isinstance(x, int) and not isinstance(x, bool)
+               for x in (a, b))
+
+
+def with_locals(fnode, env):
+    """env extended by the local names of fnode that are assigned exactly
+    once from an expression that can be interpreted in env"""
+    from .core import walk_no_nested
+    env = dict(env)
+    defs = {}
+    for st in walk_no_nested(fnode):
+        if isinstance(st, ast.Assign) and len(st.targets) == 1 and \
+                isinstance(st.targets[0], ast.Name):
+            defs.setdefault(st.targets[0].id, []).append(st.value)
+        elif isinstance(st, (ast.AugAssign, ast.For)):
+            for x in ast.walk(st.target):
+                if isinstance(x, ast.Name):
+                    defs.setdefault(x.id, []).extend([None, None])
+    changed = True
+    while changed:
+        changed = False
+        for k, vs in defs.items():
+            if k in env or len(vs) != 1 or vs[0] is None:
+                continue
+            try:
+                env[k] = ev(vs[0], env)
+                changed = True
+            except Exception:
+                pass
+    return env
+
+
 def _ew(f, a, b):
     if isinstance(a, list) and isinstance(b, list):
         if len(a) != len(b):
@@ -63,8 +96,10 @@ CMP = {ast.Lt: lambda a, b: a < b, ast.LtE: lambda a, b: a <= b,
        ast.Eq: lambda a, b: a == b, ast.NotEq: lambda a, b: a != b}
 BIN = {ast.Add: lambda a, b: a + b, ast.Sub: lambda a, b: a - b,
        ast.Mult: lambda a, b: a * b, ast.Div: lambda a, b: a / b,
-       ast.BitAnd: lambda a, b: bool(a) and bool(b),
-       ast.BitOr: lambda a, b: bool(a) or bool(b),
+       ast.BitAnd: lambda a, b: (a & b) if _ints(a, b)
+       else (bool(a) and bool(b)),
+       ast.BitOr: lambda a, b: (a | b) if _ints(a, b)
+       else (bool(a) or bool(b)),
        ast.Pow: lambda a, b: a ** b}
 
 
